@@ -337,7 +337,9 @@ func (m *FieldMap) getOrCreate(tag Tag) field {
 	defer m.rwLock.Unlock()
 
 	if f, ok := m.tagLookup[tag]; ok {
+		// The entry may hold a whole repeating group: cut it down in the table as well.
 		f = f[:1]
+		m.tagLookup[tag] = f
 		return f
 	}
 
